@@ -378,7 +378,12 @@ func ParseSPSNALUnit(data []byte) (*SPS, error) {
 		sps.Log2DiffMaxMinPcmLumaCodingBlockSize = uint16(r.ReadExpGolomb())
 		sps.PcmLoopFilterDisabledFlag = r.ReadFlag()
 	}
-	sps.NumShortTermRefPicSets = byte(r.ReadExpGolomb())
+	// value shall be in the range of 0 to 64, inclusive
+	numShortTermRefPicSets := r.ReadExpGolomb()
+	if numShortTermRefPicSets > 64 {
+		return nil, fmt.Errorf("num_short_term_ref_pic_sets %d > 64", numShortTermRefPicSets)
+	}
+	sps.NumShortTermRefPicSets = byte(numShortTermRefPicSets)
 	if sps.NumShortTermRefPicSets > 0 {
 		sps.ShortTermRefPicSets = make([]ShortTermRPS, sps.NumShortTermRefPicSets)
 		for idx := byte(0); idx < sps.NumShortTermRefPicSets; idx++ {
@@ -719,6 +724,10 @@ func parseShortTermRPS(r *bits.EBSPReader, idx, numSTRefPicSets byte, sps *SPS) 
 			if usedByCurrPicFlag || useDeltaFlag {
 				stps.NumDeltaPocs++
 			}
+		}
+		if stps.NumDeltaPocs > 2*maxSTRefPics {
+			r.SetError(fmt.Errorf("more than %d short term reference pictures", 2*maxSTRefPics))
+			return stps
 		}
 	} else {
 		stps.NumNegativePics = byte(r.ReadExpGolomb())
